@@ -354,6 +354,37 @@ pub fn run(tier: Tier, seed: u64) -> i32 {
             total.merge(st);
         }
     }
+    // far beyond the enumerated scope: exactly 255 / 256 / 257 / 512 / 1024 / 65536 draws between the start of
+    // the run and a resetRandom: the draws after it repeat those from the start
+    for total_draws in [255usize, 256, 257, 512, 1024, 65_536] {
+        let l = |n: i64| Entry::Lit(n, Radix::Dec);
+        let r40 = || random(Expr::Lit(1 << 40, Radix::Hex));
+        let body = vec![
+            Stmt::Declare("V".into(), lit(0)),
+            Stmt::Row(vec![Entry::Paren(r40()), Entry::Paren(r40()), l(0)]),
+            Stmt::Loop("i".into(), lit(total_draws as i64 - 2), vec![Stmt::Let("x".into(), r40())]),
+            Stmt::ResetRandom,
+            Stmt::Row(vec![Entry::Paren(r40()), Entry::Paren(r40()), l(0)]),
+        ];
+        let prog = Program { header: vec!["A".into(), "B".into(), "V".into()], body };
+        let text = text(&prog);
+        let mut opts = RunOpts::new(4);
+        opts.repeat_last = true;
+        opts.seed = seeds[1];
+        opts.budget = 50_000_000;
+        let obs = run_dynamic(&text, &sigs, true, &script, &opts);
+        total.evals += 1;
+        total.nontrivial += 1;
+        total.witness("reset_after_a_multiple_of_256_draws");
+        let ndraws = obs.draws.iter().filter(|d| matches!(d, DrawEvent::Draw { .. })).count();
+        let m = if ndraws != total_draws + 2 { Some(format!("draw count: {} draws logged, {} evaluations of random happen", ndraws, total_draws + 2)) } else { reset_replays(&obs.draws) };
+        let rows: Vec<&ObsItem> = obs.items.iter().filter(|i| i.is_row()).collect();
+        let ins = |i: &ObsItem| if let ObsItem::Row(r) = i { r.inputs.iter().map(|x| x.1).collect::<Vec<_>>() } else { vec![] };
+        let m = m.or_else(|| if rows.len() == 2 && ins(rows[0]) != ins(rows[1]) { Some("replay: the row after resetRandom differs from the first row of the run".to_string()) } else { None });
+        if let Some(m) = m {
+            total.violation("resetRandom does not replay (large scale)", (3 << 60) + total_draws as u64, format!("{total_draws} draws, resetRandom, two more draws (seed {})\nprogram:\n{text}{m}", opts.seed), || dyn_replay(&text, &sigs, true, &script, &opts, vec!["the last row equals the first".into()], &obs, &m));
+        }
+    }
     // far beyond the enumerated scope: hundreds of draws, a reset every 64 rows
     {
         let l = |n: i64| Entry::Lit(n, Radix::Dec);
@@ -414,7 +445,7 @@ pub fn run(tier: Tier, seed: u64) -> i32 {
             "bounds and seeds are fixed boundary sets (2, 3, 10, 2^31, 2^32+1, 2^62, a device-computed bound; 7 fixed seeds + 4 derived from VERIF_SEED); DESIGN section 10".into(),
             "runs longer than 64 rows (while(random(3)<2) under an unlucky seed) are out of scope".into(),
         ],
-        required_witnesses: vec!["hundreds_of_draws_and_repeated_resets", "run_with_draws", "reset_between_draws", "draw_replayed_after_reset", "same_seed_rerun", "stream_compared_with_a_straight_line_program", "size_hint_and_vars_called_between_the_rows", "caller_carries_on_after_an_empty_range_error", "run_with_the_subjects_own_seed"],
+        required_witnesses: vec!["hundreds_of_draws_and_repeated_resets", "reset_after_a_multiple_of_256_draws", "run_with_draws", "reset_between_draws", "draw_replayed_after_reset", "same_seed_rerun", "stream_compared_with_a_straight_line_program", "size_hint_and_vars_called_between_the_rows", "caller_carries_on_after_an_empty_range_error", "run_with_the_subjects_own_seed"],
         exhaustive_note: "all programs x bounds x seeds within the bounds".into(),
         e1: false,
     };
